@@ -196,7 +196,8 @@ class AnonymousTarget:
     outputs: list = attrs.field()
     options: dict = attrs.field()
     group: str = attrs.field(default=None)
-    working_dir: str = attrs.field(default=".")
+    # None means "the working directory of the workflow the target is added to".
+    working_dir: str = attrs.field(default=None)
     protect: set = attrs.field(factory=set, converter=set)
     spec: str = attrs.field(default="")
 
